@@ -152,6 +152,11 @@ func ProcessFilesParallel(fsys FileSystem, files []string, strictMode bool, scan
 			defer func() {
 				if r := recover(); r != nil {
 					fmt.Fprintf(os.Stderr, "warning: panic recovered analyzing %s: %v\n", f, r)
+					// A file that could not be analysed must show up as an error, not as an empty slot.
+					mu.Lock()
+					results[idx] = models.FileOutput{File: f, ErrorMessage: fmt.Sprintf("panic during analysis: %v", r)}
+					hasErrors = true
+					mu.Unlock()
 				}
 			}()
 
